@@ -175,6 +175,22 @@ func checkC17(c *Check) {
 					}
 				}
 			}
+			// … and what is lowered letter by letter is a normalised string: lowering the ASCII letters of an
+			// un-normalised string separates a letter from the combining mark it forms one character with ("I" +
+			// U+0307 is U+0130): the NFD spelling gets another key than the NFC spelling
+			if lowered {
+				lc := ast.Unparen(arg).(*ast.CallExpr)
+				if !isCall(info, lc, "strings.ToLower") && len(lc.Args) >= 1 {
+					in := resolveLocal(info, fi.Decl.Body, lc.Args[len(lc.Args)-1])
+					nfc := false
+					if nc, ok := ast.Unparen(in).(*ast.CallExpr); ok {
+						if sel, ok := ast.Unparen(nc.Fun).(*ast.SelectorExpr); ok && sel.Sel.Name == "String" && strings.Contains(exprStr(sel.X), "NFC") {
+							nfc = true
+						}
+					}
+					c.Hold("R4c", kf[1]+":lowered-after-normalisation", call.Pos(), nfc, "line "+itoa(p.Fset.Position(call.Pos()).Line)+": the ASCII letters of the domain are lowered before it is NFC-normalised ("+exprStr(in)+"): `I` followed by U+0307 becomes `i` + U+0307, while the precomposed U+0130 is folded later to `i` – canonically equivalent spellings of one domain get two keys and Equal answers false")
+				}
+			}
 			if !lowered {
 				msg = "line " + itoa(p.Fset.Position(call.Pos()).Line) + ": the domain reaches idna.ToUnicode as the caller spelled it (" + exprStr(call.Args[0]) + "): an A-label written with an upper-case ACE prefix (user@XN--E1AYBC.example) is not decoded, gets a key of its own (xn--e1aybc.example instead of тест.example) and the function is not idempotent on it"
 			}
